@@ -76,6 +76,8 @@ def make_config(seed, tier="quick", variant=None):
         file_journal=False,
     )
     # buggify: a transport close that takes a while (wait_closed() completes late)
+    # non-ASCII values (separate stream): a retransmission has to deliver the same bytes
+    cfg["charset"] = random.Random(seed ^ 0xC07C5).choice(["ascii", "ascii", "ascii", "latin1", "bmp", "astral"])
     cfg["p_slow_close"] = r.choice([0.0, 0.0, 0.0, 0.5])
     cfg["slow_close_s"] = r.choice([0.3, 1.3, 2.6])
     cfg["settle_s"] = 6.5 * hb + 8.0
@@ -191,7 +193,7 @@ class PairSim(Sim):
             side = a[1]
             k = len(self.sends[side])
             msg = app_message(self.cfg["seed"], side, k, self.cfg["payload_law"], self.cfg["charset"])
-            ent = dict(k=k, mid=f"{side}-{k}", status="pending", fp=body_fingerprint(msg))
+            ent = dict(k=k, mid=f"{side}-{k}", status="pending", fp=body_fingerprint(msg, "sent"))
             ent["ev_start"] = self.rec("send_call", side, k)
             self.sends[side].append(ent)
             self.inprogress += 1
@@ -373,7 +375,7 @@ class PairSim(Sim):
                 if order[mid] < last:
                     problems.append(("reorder", f"{dst} received {mid} after a later message"))
                 last = max(last, order[mid])
-                if body_fingerprint(msg) != fps[mid]:
+                if body_fingerprint(msg, "recv") != fps[mid]:
                     problems.append(("content", f"{dst} received {mid} with different content"))
             for e in sends:
                 if e["status"] == "accepted" and e["mid"] not in seen:
